@@ -139,15 +139,16 @@ use vstd::arithmetic::power2::*;
 broadcast use crate::vspec::group_seq_views;''')
     sk.add('read::reader', rds.item(r'^pub struct ReaderOffsetId').clean())
     rot = rds.item(r'^pub trait ReaderOffset:', label='ReaderOffset').clean()
-    rot.insert_members('    spec fn as_nat(self) -> nat;')
+    rot.insert_members('    spec fn as_nat(self) -> nat;\n    /// can the 64-bit value be represented as an offset of this type?\n    spec fn fits(v: u64) -> bool;')
     rot.splice('from_u8', ret='res', ensures=['res.as_nat() == offset'])
     rot.splice('from_u16', ret='res', ensures=['res.as_nat() == offset'])
     rot.splice('from_u32', ret='res', ensures=['res.as_nat() == offset'])
-    rot.splice('from_u64', ret='res', ensures=['[C01:checked-width] res matches Ok(o) ==> o.as_nat() == offset', 'offset <= 0xffff_ffff ==> res is Ok'])
+    rot.splice('from_u64', ret='res', ensures=['[C01:checked-width] res matches Ok(o) ==> o.as_nat() == offset', 'offset <= 0xffff_ffff ==> res is Ok',
+                                             '[C01:checked-width-exact] res is Ok <==> Self::fits(offset)'])
     rot.splice('into_u64', ret='res', ensures=['res == self.as_nat()'])
     sk.add('read::reader', rot)
     rou = rds.item(r'^impl ReaderOffset for usize', label='ReaderOffset for usize').clean()
-    rou.insert_members('    open spec fn as_nat(self) -> nat { self as nat }')
+    rou.insert_members('    open spec fn as_nat(self) -> nat { self as nat }\n    open spec fn fits(v: u64) -> bool { true }')
     rou.splice('from_i16', ret='res', ensures=['res as int == (if offset >= 0 { offset as int } else { offset as int + 0x1_0000_0000_0000_0000 })'],
                before=[('offset as usize', 'proof { assert(offset < 0 ==> (offset as usize) as int == offset as int + 0x1_0000_0000_0000_0000) by (bit_vector); assert(offset >= 0 ==> (offset as usize) as int == offset as int) by (bit_vector); }')])
     rou.splice('wrapping_add', ret='res', ensures=['res as int == (self as int + other as int) % 0x1_0000_0000_0000_0000'])
@@ -171,11 +172,11 @@ broadcast use crate::vspec::group_seq_views;''')
     sk.add('read::reader', rat)
     rau = rds.item(r'^impl ReaderAddress for u64', label='ReaderAddress for u64').clean()
     rau.insert_members('    open spec fn val(self) -> u64 { self }')
-    rau.splice('ones_sized', before=[('!0 >> (64 - size * 8)', 'proof { assert(!0u64 >> 56u64 == 0xff) by (bit_vector); assert(!0u64 >> 48u64 == 0xffff) by (bit_vector); assert(!0u64 >> 32u64 == 0xffff_ffff) by (bit_vector); assert(!0u64 >> 0u64 == 0xffff_ffff_ffff_ffff) by (bit_vector); }')])
+    rau.splice('ones_sized', before=[('!0 >> (64 - size * 8)', 'proof { assert((0u64).val() == 0u64); assert(!0u64 >> 56u64 == 0xff) by (bit_vector); assert(!0u64 >> 48u64 == 0xffff) by (bit_vector); assert(!0u64 >> 32u64 == 0xffff_ffff) by (bit_vector); assert(!0u64 >> 0u64 == 0xffff_ffff_ffff_ffff) by (bit_vector); }')])
     MASK_BV = ('proof { assert(address & !0xffu64 == 0 <==> address <= 0xffu64) by (bit_vector); assert(address & !0xffffu64 == 0 <==> address <= 0xffffu64) by (bit_vector); '
                'assert(address & !0xffff_ffffu64 == 0 <==> address <= 0xffff_ffffu64) by (bit_vector); assert(address & !0xffff_ffff_ffff_ffffu64 == 0) by (bit_vector); }')
     rau.splice('add_sized', before=[('if address & !mask != 0 {', MASK_BV)])
-    rau.splice('wrapping_add_sized', before=[('self.wrapping_add(length) & mask', 'proof { let w = self.wrapping_add(length); '
+    rau.splice('wrapping_add_sized', before=[('self.wrapping_add(length) & mask', 'proof { assert(self.val() == self); let w = self.wrapping_add(length); '
         'assert(w & 0xffu64 == w % 0x100u64) by (bit_vector); assert(w & 0xffffu64 == w % 0x10000u64) by (bit_vector); '
         'assert(w & 0xffff_ffffu64 == w % 0x1_0000_0000u64) by (bit_vector); assert(w & 0xffff_ffff_ffff_ffffu64 == w) by (bit_vector); '
         'let x = self as int + length as int; assert(w as int == if x > 0xffff_ffff_ffff_ffff { x - 0x1_0000_0000_0000_0000 } else { x }); '
@@ -266,29 +267,35 @@ broadcast use crate::vspec::group_seq_views;''')
     # default methods verified with their real bodies
     reader.splice('read_null_terminated_slice', ret='res', ensures=[
         f'[C10:view] res matches Ok(r) ==> r.rv().len < {O}.len && {O}.at(r.rv().len as int) == 0 && (forall|j: int| 0 <= j < r.rv().len ==> {O}.at(j) != 0) && window({O}, r.rv(), 0, r.rv().len) && adv({O}, {F}, r.rv().len + 1)',
+        f'[C01:eof-exact] res is Err <==> (forall|j: int| 0 <= j < {O}.len ==> {O}.at(j) != 0)',
         f'[C01:frame] within({O}, {F})'])
     reader.splice('read_initial_length', ret='res', ensures=[
         f'[C09:initial-length] res matches Ok(p) ==> ({{ let w = {O}.u(0, 4); '
         f'(w < 0xffff_fff0 ==> p.1 == Format::Dwarf32 && p.0.as_nat() == w && adv({O}, {F}, 4)) && '
         f'(w >= 0xffff_fff0 ==> w == 0xffff_ffff && p.1 == Format::Dwarf64 && p.0.as_nat() == {O}.u(4, 8) && adv({O}, {F}, 12)) }})',
         f'[C09:initial-length-reserved] {O}.len >= 4 && 0xffff_fff0 <= {O}.u(0, 4) < 0xffff_ffff ==> res is Err',
+        f'[C09:initial-length-exact] res is Err <==> ({O}.len < 4 || (0xffff_fff0 <= {O}.u(0, 4) < 0xffff_ffff) || ({O}.u(0, 4) == 0xffff_ffff && ({O}.len < 12 || !Self::Offset::fits({O}.u(4, 8) as u64))))',
         f'[C01:frame] within({O}, {F})'])
     reader.splice('read_address_size', ret='res', ensures=[
         f'[C01:address-size-validated] res matches Ok(s) ==> valid_address_size(s) && s == {O}.at(0) && adv({O}, {F}, 1)',
+        f'[C01:eof-exact] res is Err <==> ({O}.len < 1 || !valid_address_size({O}.at(0)))',
         f'[C01:frame] within({O}, {F})'])
     FUEL1 = 'proof { reveal_with_fuel(uint_le_at, 3); reveal_with_fuel(uint_be_at, 3); }'
     reader.splice('read_address', ret='res', before=[('match address_size {', FUEL1)], ensures=[
         f'[C09:address] res matches Ok(v) ==> valid_address_size(address_size) && adv({O}, {F}, address_size as nat) && v as nat == {O}.u(0, address_size as int)',
         '[C09:address-size-reject] !valid_address_size(address_size) ==> res is Err',
+        f'[C01:eof-exact] valid_address_size(address_size) ==> (res is Err <==> {O}.len < address_size)',
         f'[C01:err-no-consume] res is Err ==> unch({O}, {F})'])
     WORD = f'adv({O}, {F}, word_size(format)) && v.as_nat() == {O}.u(0, word_size(format) as int)'
     for n in ['read_word', 'read_length', 'read_offset']:
         reader.splice(n, ret='res', ensures=[
             f'[C09:word] res matches Ok(v) ==> {WORD}',
+            f'[C01:eof-exact] res is Err <==> ({O}.len < word_size(format) || (format == Format::Dwarf64 && !Self::Offset::fits({O}.u(0, 8) as u64)))',
             f'[C01:frame] within({O}, {F})'])
     reader.splice('read_sized_offset', ret='res', before=[('match size {', FUEL1)], ensures=[
         f'[C09:sized-offset] res matches Ok(v) ==> valid_address_size(size) && adv({O}, {F}, size as nat) && v.as_nat() == {O}.u(0, size as int)',
         '[C09:sized-offset-reject] !valid_address_size(size) ==> res is Err',
+        f'[C01:eof-exact] valid_address_size(size) ==> (res is Err <==> ({O}.len < size || !Self::Offset::fits({O}.u(0, size as int) as u64)))',
         f'[C01:frame] within({O}, {F})'])
     sk.add('read::reader', reader)
     # R-CLONE: `x.clone()` on a reader is rewritten (per item, logged) to reader_clone(&x); the contract "a clone has the
